@@ -73,8 +73,15 @@ Fixpoint int_literal_aux (s : bytes) (acc : Z) : option Z :=
               | None => None    (* a '.': float literal, outside the fragment *)
               end
   end.
+(* expr-lang's integers are Go ints (64 bits): a literal outside that range is refused by its parser and arithmetic
+   wraps around silently.  Neither is part of the documented language: the model stays inside the range and answers
+   OutOfFragment at its border instead of guessing (found by probing numeric edge cases, round 8) *)
+Definition in_int64 (z : Z) : bool := ((-9223372036854775808 <=? z) && (z <=? 9223372036854775807))%Z.
 Definition int_literal (tok : bytes) : option Z :=
-  match tok with [] => None | _ => int_literal_aux tok 0 end.
+  match tok with
+  | [] => None
+  | _ => match int_literal_aux tok 0 with Some z => if in_int64 z then Some z else None | None => None end
+  end.
 
 Definition literal (v : value) : res :=
   match v with
@@ -233,7 +240,7 @@ Definition cmp_lt (a b : val) : res :=
 
 Definition arith (f : Z -> Z -> Z) (a b : val) : res :=
   match a, b with
-  | VI x, VI y => Val (VI (f x y))
+  | VI x, VI y => let r := f x y in if in_int64 r then Val (VI r) else OutOfFragment
   | _, _ => if plain a && plain b then RunErr else OutOfFragment
   end.
 
@@ -264,6 +271,18 @@ Definition wrong_operand (v : val) : res := if plain v then RunErr else OutOfFra
 
 (* ---------- evaluation ---------- *)
 (* the per-tuple environment: alias -> (kind, entity), in FROM order *)
+(* identifiers that expr-lang itself gives a meaning (constants, built-in functions, word operators): a name that is
+   not bound by the query is a compile error only if it is none of these; with one of them the model does not guess *)
+Definition expr_builtin (x : bytes) : bool :=
+  existsb (bytes_eqb x)
+    ["true"; "false"; "nil"; "len"; "all"; "any"; "one"; "none"; "map"; "filter"; "find"; "findIndex"; "findLast";
+     "findLastIndex"; "count"; "sum"; "groupBy"; "sortBy"; "reduce"; "int"; "float"; "string"; "trim"; "trimPrefix";
+     "trimSuffix"; "upper"; "lower"; "split"; "splitAfter"; "replace"; "repeat"; "indexOf"; "lastIndexOf"; "hasPrefix";
+     "hasSuffix"; "max"; "min"; "abs"; "ceil"; "floor"; "round"; "mean"; "median"; "first"; "last"; "take"; "reverse";
+     "sort"; "keys"; "values"; "toJSON"; "fromJSON"; "toBase64"; "fromBase64"; "now"; "duration"; "date"; "timezone";
+     "type"; "get"; "join"; "concat"; "flatten"; "uniq"; "bitand"; "bitor"; "bitxor"; "bitnand"; "bitnot"; "bitshl";
+     "bitshr"; "bitushr"; "not"; "and"; "or"; "matches"; "contains"; "startsWith"; "endsWith"; "let"; "$env"].
+
 Definition tenv := list (bytes * (bytes * node)).
 
 Fixpoint eval (env : tenv) (e : xexpr) : res :=
@@ -272,7 +291,7 @@ Fixpoint eval (env : tenv) (e : xexpr) : res :=
   | XList vs => match literals vs with Some l => Val (VL l) | None => OutOfFragment end
   | XVar x => match lookup x env with
               | Some (k, n) => Val (VEnv k n)
-              | None => CompErr
+              | None => if expr_builtin x then OutOfFragment else CompErr
               end
   | XParen a => eval env a
   | XMember a f =>
@@ -402,7 +421,7 @@ Fixpoint static (env : tenv) (e : xexpr) : sres :=
   | XVal (VStr t) => match string_literal t with Some _ => SOk TS | None => SOOF end
   | XVal (VNum t) => match int_literal t with Some _ => SOk TI | None => SOOF end
   | XList vs => match literals vs with Some _ => SOk TL | None => SOOF end
-  | XVar x => match lookup x env with Some _ => SOk TMap | None => SErr end
+  | XVar x => match lookup x env with Some _ => SOk TMap | None => if expr_builtin x then SOOF else SErr end
   | XParen a => static env a
   | XMember a _ =>
       match static env a with
